@@ -54,6 +54,20 @@ func ssStream(key *shadowsocks.EncryptionKey, salt []byte, payloads ...[]byte) [
 	return buf.Bytes()
 }
 
+// ssStreamEmptyChunk: salt, then one chunk whose length record says 0 (sealed length, sealed empty
+// payload; the nonce is a little-endian counter)
+func ssStreamEmptyChunk(key *shadowsocks.EncryptionKey, salt []byte) []byte {
+	aead, err := key.NewAEAD(salt)
+	if err != nil {
+		panic(err)
+	}
+	nonce := make([]byte, aead.NonceSize())
+	out := append([]byte{}, salt...)
+	out = aead.Seal(out, nonce, []byte{0, 0}, nil)
+	nonce[0] = 1
+	return aead.Seal(out, nonce, nil, nil)
+}
+
 type byteConn struct {
 	r      io.Reader
 	remote net.Addr
@@ -212,7 +226,7 @@ func cAuth(ctx *Ctx, prop string) {
 				op.C = (op.C + 1 + r.Intn(3)) % 4
 			}
 			op.Seed = uint32(r.U64())
-			op.Tail = []int{1, 2, 16, 17, 100, 1000}[r.Intn(6)]
+			op.Tail = []int{0, 1, 2, 16, 17, 100, 1000}[r.Intn(7)] // 0: an empty first chunk is a legal record
 			key := mkKey(op.C, op.S)
 			var input []byte
 			var kindT string
@@ -282,6 +296,9 @@ func cAuth(ctx *Ctx, prop string) {
 					ctx.Count("salt:fresh")
 				}
 				input = ssStream(key, salt, genBytes(op.Tail, 3))
+				if op.Tail == 0 { // the SDK writer never emits an empty chunk: seal one by hand
+					input = ssStreamEmptyChunk(key, salt)
+				}
 				kindT = fmt.Sprintf("KHonest %d %d %s %d", op.C, op.S, ss, op.Tail)
 				if !inCfg {
 					want = 1
